@@ -430,7 +430,7 @@ class RaggedArray(IndexableArray, np.lib.mixins.NDArrayOperatorsMixin):
             array containing the row means
         """
         assert axis in (0, -1, 1)
-        if not np.issubdtype(self, np.floating):
+        if not np.issubdtype(self.dtype, np.inexact):  # complex elements keep their imaginary parts
             self = self.astype(float)
         s = self.sum(axis=axis)
         if axis == 0:
